@@ -27,6 +27,23 @@ Proof. exact json_line_single_line. Qed.
 Theorem C14_json_string_roundtrip : forall t fuel, length t < fuel -> unescape fuel (flat_map escape_char t) = Some t.
 Proof. exact escape_roundtrip. Qed.
 
+(* colours disabled: the emitter adds no escape sequence -- ESC (27) can occur in the human output only where the
+   diagnostics' own texts, the file names or the source lines quoted in snippets contain it *)
+Theorem C14_human_adds_no_escape : forall files d, files_noesc files -> ediag_noesc d -> noesc (human_diag files d).
+Proof. exact human_adds_no_escape. Qed.
+Theorem C14_emit_human_no_escape : forall files ds, files_noesc files -> Forall ediag_noesc ds -> Forall noesc (emit_human files ds).
+Proof. exact emit_human_no_escape. Qed.
+Example C14_no_escape_instance :
+  let x := {| sp_file := [97]%N; sp_srow := 1; sp_scol := 2; sp_erow := 1; sp_ecol := 3 |} in
+  let d := {| e_level := LWarning; e_code := [87]%N; e_msg := [109]%N; e_span := Some x; e_notes := [ {| n_msg := [110]%N; n_span := Some x |} ] |} in
+  files_noesc [([97]%N, [9; 98; 99; 13; 10; 100]%N)] /\ ediag_noesc d /\ length (human_diag [([97]%N, [9; 98; 99; 13; 10; 100]%N)] d) > 40.
+Proof.
+  cbv zeta. split; [|split].
+  - intros f [<-|[]]. apply noesc_lit. reflexivity.
+  - unfold ediag_noesc. cbn. split; [|split; [|split]]; try (apply noesc_lit; reflexivity). intros n0 [<-|[]]. split; apply noesc_lit; reflexivity.
+  - vm_compute. repeat constructor.
+Qed.
+
 Example C14_instance :
   emit_json [ {| e_level := LAllowed; e_code := [88]%N; e_msg := [109]%N; e_span := None; e_notes := [] |};
               {| e_level := LError; e_code := [69;48;48;49]%N; e_msg := [97;34;10;1]%N; e_span := None; e_notes := [] |} ]
